@@ -123,5 +123,8 @@ func CreateSpliceInsertPayload(p SpliceInsertParams) []byte {
 	cmd.SetIsOut(p.OutOfNetworkIndicator)
 	cmd.SetSpliceImmediate(p.SpliceImmediateFlag)
 	s.SetCommandInfo(cmd)
+	// The section PTS is the splice time after adjustment. Without it, gots writes
+	// pts_adjustment = 2^33 - pts_time, which cancels pts_time in a receiver.
+	s.SetAdjustPTS(cmd.PTS())
 	return s.UpdateData()
 }
